@@ -87,6 +87,56 @@ func encStateNoAcc(nd *chainx.Node) []byte {
 	return buf.Bytes()
 }
 
+// hdrFields renders the fields of a state that ApplyHeader determines (what a stored state must
+// agree on whether or not the block was ever applied).
+func hdrFields(cs consensus.State) string {
+	return fmt.Sprintf("%v|%v|%v|%v|%v|%v|%v|%v|%v", cs.Index, cs.PrevTimestamps, cs.Depth, cs.ChildTarget, cs.OakTime, cs.OakTarget, cs.TotalWork, cs.Difficulty, cs.OakWork)
+}
+
+func encFull(cs consensus.State, noAcc bool) []byte {
+	var buf bytes.Buffer
+	e := types.NewEncoder(&buf)
+	if noAcc {
+		cs.Elements = consensus.ElementAccumulator{NumLeaves: cs.Elements.NumLeaves}
+	}
+	cs.EncodeTo(e)
+	e.Flush()
+	return buf.Bytes()
+}
+
+// AuditStoredStates: every state the manager stores for a submitted block agrees, in its
+// header-level fields (index, timestamps, targets, works — what the reorg decision reads), with the
+// reference computed on a node for which that block's parent was the tip; and the stored state of
+// every block on the best chain is the complete post-block state of a linear replay.
+func AuditStoredStates(c *vh.Case, t *chainx.Tree, nd *chainx.Node, tainted bool) {
+	tip := nd.CM.Tip()
+	for _, b := range t.Blocks[1:] {
+		if !b.HdrOk || b.Parent == chainx.OrphanParent {
+			continue
+		}
+		st, ok := nd.CM.State(b.Block.ID())
+		if !ok {
+			continue
+		}
+		if got, want := hdrFields(st), hdrFields(b.State); got != want {
+			c.Oracle("stored-state-differs-from-reference", "the state stored for block %d (height %d) has header-level fields %s, a node that had its parent as tip computes %s", b.ID, b.Height, got, want)
+			return
+		}
+		if b.Height <= tip.Height && b.Full.Index.ID == b.Block.ID() {
+			if ci, ok := nd.CM.BestIndex(b.Height); ok && ci.ID == b.Block.ID() {
+				if !bytes.Equal(encFull(st, false), encFull(b.Full, false)) {
+					cls := "stored-best-state-differs-from-linear-replay"
+					if tainted && bytes.Equal(encFull(st, true), encFull(b.Full, true)) {
+						cls = "exp-order-after-mid-list-revert"
+					}
+					c.Oracle(cls, "the state stored for best-chain block %d (height %d) is not the post-block state of a node that only saw that chain (stored leaves %d, linear %d)", b.ID, b.Height, st.Elements.NumLeaves, b.Full.Elements.NumLeaves)
+					return
+				}
+			}
+		}
+	}
+}
+
 // Submit calls AddBlocks, recovering a panic.
 func Submit(nd *chainx.Node, blocks []types.Block) (res string) {
 	defer func() {
@@ -238,6 +288,22 @@ func PreValidated(t *chainx.Tree, batch []int) bool {
 
 // RunTree submits one tree in one schedule and registers the case.
 func RunTree(r *vh.Run, name string, t *chainx.Tree, sched [][]int) {
+	RunTreeModes(r, name, t, sched, nil)
+}
+
+// onPath reports whether x is an ancestor of (or equal to) leaf.
+func onPath(t *chainx.Tree, leaf, x int) bool {
+	for y := leaf; y != 0 && y != chainx.OrphanParent; y = t.Blocks[y].Parent {
+		if y == x {
+			return true
+		}
+	}
+	return x == 0
+}
+
+// RunTreeModes is RunTree with the entry point fixed per batch: modes[i] = "add" (AddBlocks),
+// "addv2" (AddValidatedV2Blocks) or "" (the default rule).
+func RunTreeModes(r *vh.Run, name string, t *chainx.Tree, sched [][]int, modes []string) {
 	nd := t.Net.MustNode()
 	c := &vh.Case{Name: name, Model: "chain mgr"}
 	for _, b := range t.Blocks[1:] {
@@ -255,7 +321,11 @@ func RunTree(r *vh.Run, name string, t *chainx.Tree, sched [][]int) {
 		var sb strings.Builder
 		// every third eligible batch goes through the pre-validated path, sometimes with a wrong
 		// number of states
-		if PreValidated(t, batch) && (len(batch)+bi)%3 == 0 {
+		mode := ""
+		if bi < len(modes) {
+			mode = modes[bi]
+		}
+		if mode == "addv2" || (mode == "" && PreValidated(t, batch) && (len(batch)+bi)%3 == 0) {
 			nStates := len(batch)
 			if (len(batch)+bi)%5 == 0 {
 				nStates++
@@ -290,6 +360,7 @@ func RunTree(r *vh.Run, name string, t *chainx.Tree, sched [][]int) {
 			}
 		}
 		Audit(c, t, nd, res, before, beforeState, beforeTip, beforeN, tainted)
+		AuditStoredStates(c, t, nd, tainted)
 		if afterTip != beforeTip {
 			// a reorg proper = the old tip is not an ancestor of the new one
 			anc := false
@@ -300,6 +371,9 @@ func RunTree(r *vh.Run, name string, t *chainx.Tree, sched [][]int) {
 			}
 			if !anc && beforeTip != 0 {
 				reorgs++
+				if t.Blocks[afterTip].Height < t.Blocks[beforeTip].Height {
+					c.Tags = append(c.Tags, "reorg-to-shorter-chain")
+				}
 			}
 		}
 		if res == "reorg-failed" {
@@ -337,9 +411,58 @@ func RunTree(r *vh.Run, name string, t *chainx.Tree, sched [][]int) {
 		c.Oracle("manager-verdict-differs-from-consensus", "%s", d)
 	}
 	c.Tags = append(c.Tags, fmt.Sprintf("v2allow:%d", t.Net.N.HardforkV2.AllowHeight))
+	if t.Net.Volatile {
+		c.Tags = append(c.Tags, "volatile-difficulty")
+	}
 	c.Nontrivial = reorgs > 0 || errs > 0
 	c.Info = map[string]any{"blocks": len(t.Blocks), "batches": len(sched), "reorgs": reorgs, "failed_reorgs": failed}
 	r.Add(c)
+}
+
+// runLong: histories long enough for the pre-Oak retarget (every 500 blocks, reading the
+// timestamp of an ancestor up to 1000 blocks back through the store's AncestorTimestamp) to decide
+// the work of a fork: a main chain and a competing chain that leaves it at genesis or right after,
+// each more than 500 blocks long, with different block times (so that their difficulties differ
+// after the retarget), submitted in batches of a hundred in both orders.
+func runLong(r *vh.Run, rng *vh.RNG) {
+	for i := 0; i < r.Pick(2, 8); i++ {
+		trng := rng.Fork()
+		net := chainx.NewPreOakNet(trng)
+		var t *chainx.Tree
+		var mainLeaf, forkLeaf int
+		func() {
+			defer func() {
+				if x := recover(); x != nil {
+					gc := &vh.Case{Name: fmt.Sprintf("long%d/generator", i), Nontrivial: true}
+					gc.Op("build-history", "panic")
+					gc.Oracle("linear-node-panicked-while-building-history", "a node fed a linear chain of freshly mined blocks panicked or rejected a valid block: %v", x)
+					r.Add(gc)
+					t = nil
+				}
+			}()
+			t = chainx.NewTree(net)
+			mainLeaf = chainx.LongBranch(trng, t, 0, 503+trng.Intn(12), 10)
+			// forking at genesis, the ancestor walk from the fork's 499th block never meets the best
+			// chain; one or two blocks later it meets it at its very end
+			at := 0
+			if i%2 == 1 {
+				at = trng.Intn(3)
+			}
+			forkLeaf = chainx.LongBranch(trng, t, at, 503+trng.Intn(14)-at, 5+trng.Intn(4))
+		}()
+		if t == nil {
+			continue
+		}
+		order := [][2]int{{mainLeaf, forkLeaf}, {forkLeaf, mainLeaf}}[trng.Intn(2)]
+		var sched [][]int
+		for _, leaf := range order {
+			path := t.PathFromRoot(leaf)
+			for k := 0; k < len(path); k += 100 {
+				sched = append(sched, path[k:min(k+100, len(path))])
+			}
+		}
+		RunTree(r, fmt.Sprintf("long%d/pre-oak-fork", i), t, sched)
+	}
 }
 
 func Run(r *vh.Run) {
@@ -361,7 +484,33 @@ func Run(r *vh.Run) {
 		for s := 0; s < scheds; s++ {
 			RunTree(r, fmt.Sprintf("tree%d/s%d", i, s), t, t.Schedule(trng))
 		}
+		if sh := t.ShorterHeavierSchedule(trng); sh != nil {
+			RunTree(r, fmt.Sprintf("tree%d/shorter-heavier", i), t, sh)
+		}
+		// a branch whose first blocks are relayed one by one (stored as side blocks with a
+		// header-level state only) and which is then handed over whole and pre-validated, as
+		// instant sync does, and wins
+		nrel := 0
+		leaves := t.Leaves()
+		for _, a := range leaves {
+			for _, b := range leaves {
+				if nrel >= 2 || a == b || !t.AllValid(a) || !t.AllValid(b) || !heavier(t.Blocks[b], t.Blocks[a]) {
+					continue
+				}
+				pb := t.PathFromRoot(b)
+				k := 0
+				for k < len(pb) && onPath(t, a, pb[k]) {
+					k++
+				}
+				if br := pb[k:]; len(br) >= 2 && PreValidated(t, br) {
+					sched := [][]int{t.PathFromRoot(a), br[:1+trng.Intn(len(br)-1)], br}
+					RunTreeModes(r, fmt.Sprintf("tree%d/relayed-then-prevalidated%d", i, nrel), t, sched, []string{"add", "add", "addv2"})
+					nrel++
+				}
+			}
+		}
 	}
+	runLong(r, rng)
 	r.Assume("consensus rules (ValidateOrphan/ValidateBlock/ApplyBlock) are parameters: block attributes come from core/consensus on an independent linear twin")
 	r.Assume("time.Now() in the future-block test: generated timestamps are years away from the boundary")
 }
